@@ -83,7 +83,11 @@ class WSPeer(BasePeer):
         if mode == "raw":
             resp = bytes.fromhex(rc["hex"])
         elif mode == "std":
-            resp = R.std_response(self.key or "", [tuple(h) for h in rc.get("extra", ())])
+            extra = [tuple(h) for h in rc.get("extra", ())]
+            offered = R.header_one(self.request, "Sec-WebSocket-Protocol") if self.request else None
+            if offered and rc.get("select_subprotocol", True):
+                extra.append(("Sec-WebSocket-Protocol", offered.split(",")[0].strip()))
+            resp = R.std_response(self.key or "", extra)
         else:
             hdrs = []
             for h in rc.get("headers", ()):
